@@ -44,9 +44,10 @@ LEVEL_NOTE = ('Trusted: mc.canon (independent walker). Bounds: families of '
 ROOTS = ['eq', 'eqb', 'eqpar', 'eqpos']
 FAMILIES = {
     'A': (['eq', 'eqb', 'eqpar', 'list2', 'tuple2', 'dict2', 'dict2r'], 2, 2),
-    'M': (['eq', 'eqpos', 'list2', 'dictmix', 'dictmixr'], 2, 2),
+    'M': (['eq', 'eqpos', 'list2', 'dictmix', 'dictmixr', 'dictenum',
+           'dictenumr'], 2, 2),
     'B': (['eq', 'eqb', 'eqpar', 'eqpos', 'list2', 'tuple1', 'dict2',
-           'dict2r', 'dictmix', 'dictmixr'], 2, 2),
+           'dict2r', 'dictmix', 'dictmixr', 'dictenum', 'dictenumr'], 2, 2),
     'C': (['eq', 'list2', 'dict1'], 3, 2),
     # three nodes: equal-but-distinct Buildables / lists vs shared ones
     'S3': (['eq', 'list2'], 3, 1),
@@ -112,7 +113,7 @@ def build_canon(cfg):
 def classify(sa, sb):
   ka = [k for k, _ in sa]
   kb = [k for k, _ in sb]
-  if any(k.startswith('dictmix') for k in ka + kb):
+  if any(k.startswith(('dictmix', 'dictenum')) for k in ka + kb):
     return 'mixed-key-dict'
   if any(k == 'eqpos' for k in ka + kb):
     return 'positional'
